@@ -33,6 +33,11 @@ const (
 	// Well formed data with less elements will allocate the correct amount just fine.
 	MaxPointsAlloc = 10000
 	MaxMultiAlloc  = 100
+
+	// MaxCollectionDepth is how deep geometry collections may be nested in one another.
+	// Each level is a recursive call of the decoder: without a limit, bad data (9 bytes
+	// per level) overflows the goroutine stack, which is fatal and can not be recovered from.
+	MaxCollectionDepth = 10000
 )
 
 // DefaultByteOrder is the order used for marshalling or encoding
@@ -209,6 +214,9 @@ func (e *Encoder) writeTypePrefix(t uint32, l int, srid int) error {
 // Decoder can decoder (E)WKB geometry off of the stream.
 type Decoder struct {
 	r io.Reader
+
+	// number of geometry collections around what this decoder reads
+	depth int
 }
 
 // Unmarshal will decode the type into a Geometry.
@@ -281,7 +289,7 @@ func (d *Decoder) Decode() (orb.Geometry, int, error) {
 	case multiPolygonType:
 		g, err = readMultiPolygon(d.r, order, buf)
 	case geometryCollectionType:
-		g, err = readCollection(d.r, order, buf)
+		g, err = readCollection(d.r, order, buf, d.depth)
 	default:
 		return nil, 0, ErrUnsupportedGeometry
 	}
